@@ -218,6 +218,20 @@ Theorem C15_refused_candidate_never_head :
   ans <> new /\ ~ In new (b_promoted r) /\ head_after subj r <> new.
 Proof. exact head_soft_refused_never_head. Qed.
 
+(** EACH DELIVERY IS JUDGED ON ITS OWN. In a sequence of candidates delivered to one Syncer --
+    whatever was delivered before, accepted or refused, for whatever reason (a forged candidate,
+    a getter failure), and however the getter behaved then -- the run of the next delivery is
+    [incoming] with the CURRENT getter on the subjective head the earlier deliveries left; so all
+    theorems above apply to it as they stand. In particular (C15_complete) a candidate that was
+    refused only because an intermediate could not be fetched is accepted when it is delivered
+    again and the getter now serves the chain. *)
+Theorem C15_each_delivery_on_its_own :
+  forall (now drift : Z) (tv : hdr -> hdr -> tvres) (subj : hdr) (l1 : list delivery)
+         (get : nat -> N -> option hdr) (fuel : nat) (new : hdr) (l2 : list delivery),
+  nth_error (deliveries now drift tv subj (l1 ++ (get, fuel, new) :: l2)) (length l1) =
+  Some (incoming now drift tv get fuel (head_after_all now drift tv subj l1) new).
+Proof. exact delivery_on_its_own. Qed.
+
 (** ** non-vacuity *)
 
 (** [ex_c] = an honest hash-linked chain, [ex_tv tr] = a type that trusts non-adjacent headers up
@@ -280,6 +294,16 @@ Example C15_ex_search_not_exhaustive :
   map h_height (b_promoted r) = [11; 13; 14; 15].
 Proof. vm_compute. repeat split. Qed.
 
+(** a candidate refused because the getter failed at its 4th request is accepted when it is
+    delivered again and the getter answers (from the head the first attempt left: 12) *)
+Example C15_ex_retry_after_getter_failure :
+  let g (i : nat) h := if (i <? 3)%nat then ex_get i h else None in
+  let rs := deliveries 1000 0 (ex_tv 3) (ex_c 10)
+              [(g, fuel_bound 20, ex_c 30); (ex_get, fuel_bound 20, ex_c 30)] in
+  map b_verdict rs = [Refuse FGetter; Accept] /\
+  map (fun r => map h_height (b_promoted r)) rs = [[12]; [14; 16; 19; 21; 23; 26; 28; 30]].
+Proof. vm_compute. split; reflexivity. Qed.
+
 Print Assumptions C15_main.
 Print Assumptions C15_terminates.
 Print Assumptions C15_bifurcate_terminates.
@@ -294,3 +318,4 @@ Print Assumptions C15_refuses_forged.
 Print Assumptions C15_final_adjacent_failure_refuses.
 Print Assumptions C15_head_request_path.
 Print Assumptions C15_refused_candidate_never_head.
+Print Assumptions C15_each_delivery_on_its_own.
